@@ -89,6 +89,11 @@ def check_state(oc, pid, ro, tree, label, rec_extra, original):
     key = lambda v: None if 'view' not in v else ([(s['id'], [i['id'] for i in s['items']]) for s in v['view']['stories']], v['view']['completed'])
     if key(v1) != key(v2):
         bad.append('stories/items/completed of the live object differ from the re-read one')
+    elif v1 != v2:
+        # the same stories and items - but not the same running order: some accessor (times, durations, slugs, script,
+        # body) of the live object answers differently from the object read back from its own serialisation
+        diff = [k_ for k_ in (v1.get('view') or {}) if (v1.get('view') or {}).get(k_) != (v2.get('view') or {}).get(k_)] or ['crash' if 'crash' in v1 or 'crash' in v2 else '?']
+        bad.append('the live object and the one read back from its serialisation answer differently: ' + ', '.join(sorted(diff))[:200])
     # envelope
     root = tree
     n_rc = sum(1 for c in root[4] if c[0] == 'roCreate')
@@ -207,8 +212,10 @@ def cli_written_out(oc):
             for enc in ('utf-8', 'latin-1', 'ascii'):
                 for to_file in (False, True):
                     outp = os.path.join(root, 'out.xml')
-                    if os.path.exists(outp):
-                        os.remove(outp)
+                    # the output file exists already and is LONGER than what will be written (a periodic re-merge of a
+                    # running order that shrank): what is read back is the new document, nothing of the old one
+                    with open(outp, 'w', encoding='utf-8') as f:
+                        f.write('<mos><old>' + 'previous, longer content ' * 400 + '</old></mos>\n')
                     code = 'import sys; sys.path.insert(0, %r); from mosromgr.cli import main; sys.exit(main(sys.argv[1:]) or 0)' % impl.REPO
                     env = dict(os.environ, PYTHONIOENCODING=enc, PYTHONDONTWRITEBYTECODE='1')
                     pr = subprocess.run([sys.executable, '-c', code, 'merge', '-n', '-f'] + fns + (['-o', outp] if to_file else []),
